@@ -248,24 +248,28 @@ impl<T: Qcow2IoOps> Qcow2Dev<T> {
         let info = &self.info;
         let key = host_off >> info.cluster_bits();
 
-        let locked_cls = {
+        // Don't wait for the cluster's lock with the map locked: cache flush
+        // holds the cluster's lock while it locks the map for removing it.
+        let cluster = {
             let cls_map = self.new_cluster.read().await;
 
-            match cls_map.get(&key) {
-                Some(cluster) => {
-                    // wait for in-progress zeroing, which holds this lock
-                    // until the cluster is removed from the map
-                    let mut locked_cls = cluster.write().await;
+            cls_map.get(&key).cloned()
+        };
 
-                    if !(*locked_cls) {
-                        *locked_cls = true;
-                        Some(locked_cls)
-                    } else {
-                        None
-                    }
+        let locked_cls = match cluster {
+            Some(cluster) => {
+                // wait for in-progress zeroing, which holds this lock
+                // until the cluster is removed from the map
+                let mut locked_cls = cluster.write().await;
+
+                if !(*locked_cls) {
+                    *locked_cls = true;
+                    Some(locked_cls)
+                } else {
+                    None
                 }
-                None => None,
             }
+            None => None,
         };
 
         if let Some(mut locked_cls) = locked_cls {
